@@ -19,9 +19,9 @@ import (
 	"strings"
 	"sync"
 
-	"github.com/magisterquis/curlrevshell/internal/iobroker"
 	"github.com/magisterquis/curlrevshell/lib/opshell"
 	"github.com/magisterquis/curlrevshell/verifx/ev"
+	"github.com/magisterquis/curlrevshell/verifx/hworld"
 )
 
 // c03PrefixStress runs rounds x positions sessions.
@@ -32,7 +32,7 @@ func c03PrefixStress(r *ev.Result, rounds int) {
 		for cancelAfter := 0; cancelAfter < 6 && 0 == bad; cancelAfter++ {
 			ich := make(chan string, 4)
 			och := make(chan opshell.CLine) /* A terminal that takes one item at a time. */
-			b, err := iobroker.New(ich, och)
+			b, err := hworld.NewBroker(ich, och)
 			if nil != err {
 				ev.Broken("%s", err)
 			}
